@@ -494,8 +494,14 @@ class ValueSet:
                 merged_vs._si = merged_vs._si.union(b._si)
 
         else:
-            for region in merged_vs._regions:
-                merged_vs._regions[region] = merged_vs._regions[region].union(b)
+            if not merged_vs._regions:
+                # no region to merge the plain value into: it is a value of the global region (see __eq__), and must
+                # not get lost - ValueSet.empty(8).union(5) was empty
+                merged_vs._set_si("global", 0, b)
+
+            else:
+                for region in merged_vs._regions:
+                    merged_vs._regions[region] = merged_vs._regions[region].union(b)
 
             merged_vs._si = merged_vs._si.union(b)
 
@@ -514,8 +520,13 @@ class ValueSet:
             merged_vs._si = merged_vs._si.widen(b._si)
 
         else:
-            for region in merged_vs._regions:
-                merged_vs._regions[region] = merged_vs._regions[region].widen(b)
+            if not merged_vs._regions:
+                # as in union(): an empty value set has no region the plain value could be widened into
+                merged_vs._set_si("global", 0, b)
+
+            else:
+                for region in merged_vs._regions:
+                    merged_vs._regions[region] = merged_vs._regions[region].widen(b)
 
             merged_vs._si = merged_vs._si.widen(b)
 
